@@ -1,4 +1,5 @@
 import SockModel.Model.AsyncQLemmas
+import SockModel.Spec.C02
 /-!
 # C02  Async send pipeline: FIFO, whole buffers, futures tell the truth
 
@@ -312,6 +313,24 @@ theorem asyncq_destroy (acts more : List Action) :
     exact fut_stable_step h .destroy id hr
 
 
+/-- **the whole property, as the check evaluates it on the implementation, holds on the model**: the
+predicate of `Spec/C02.lean` (`specStep`/`specRun`: an ideal FIFO pipeline fed with the same OS answers,
+maintained from the observations alone - futures after every operation exactly those of the ideal
+pipeline, buffers back in the pool exactly those with a resolved future, the peer's bytes the FIFO
+concatenation of what the OS accepted, one `send()` per step and only with a buffer queued, a `send()`
+attempt whenever a buffer is queued on a connected socket whose peer has read everything, no handler and
+no exception without cause) accepts the observations the model (`modelTrace`, built from the very `step`
+function of the theorems above) produces for every history of Sends, driver steps with arbitrary poll
+readiness and `send()` answers (full / any short count / failure / scripted zero), peer reads, peer
+close, pool exhaustion and destruction, of any length.  `./check C02` runs the very same functions
+(`specRunL` = `specRun` with the operation line attached to the message, `specRunL_ok`) on the
+transcript of the real library, so a spec failure there is a difference between library and model.
+Hypothesis `Op.sane`: the kernel does not answer 0 to an unscripted `send()` (a clause of the spec
+about the kernel, not the library). -/
+theorem spec_holds_on_model (ops : List Op) (hs : ∀ op ∈ ops, op.sane) :
+    ∃ sp, specRun {} (modelTrace {} ops) = .ok sp :=
+  model_satisfies_spec ops hs
+
 /-! ### non-vacuity: concrete interleavings with partial writes, a failed send, the refill race -/
 
 /-- two producers, partial writes, a failed send in the middle: wire and futures -/
@@ -331,5 +350,28 @@ example :
 example :
     let s := run {} [.enq 0 1 [1, 2, 3], .arm 0, .enq 0 2 [], .writable (.accept 1), .destroy]
     s.wire = [1] ∧ s.fut 1 = .broken ∧ s.fut 2 = .broken ∧ s.returned = [1, 2] := by decide
+
+/-- the hypothesis of `spec_holds_on_model` is met by it -/
+example : ∀ op ∈ specDemo, op.sane := by decide
+
+/-- what the model shows for it: the future letters after every Send / step / destroy -/
+example : (modelTrace {} specDemo).filterMap (fun o => match o with
+      | .send _ _ (some st) | .step _ _ _ _ _ (some st) | .destroy (some st) => some st.futs | _ => none)
+    = ["p", "pp", "pp", "pp", "vp", "ve", "vep", "vep", "vev", "vevp", "vevp", "vevp", "vevb", "vevb"] := by decide
+
+/-- ... and the observer's book-keeping at the end -/
+example : (specRun {} (modelTrace {} specDemo)).toOption.map (fun sp => (sp.status, sp.pend.length, sp.acc, sp.connected))
+    = some ([(1, 'v'), (2, 'e'), (3, 'v'), (4, 'b')], 0, [9], false) := by decide
+
+/-- the predicate is not trivially accepting: a value before the last byte was accepted is rejected ... -/
+example : (specRun {} [.send 1 [1, 2] (some ⟨"p", []⟩),
+    .step false [.sent 2 1] false false none (some ⟨"v", [1]⟩)]).toOption.isNone := by decide
+
+/-- ... and so are a step that makes no send attempt although a buffer is queued and the peer has read
+everything, and a buffer that is not back in the pool when its future is resolved -/
+example : (specRun {} [.send 1 [1, 2] (some ⟨"p", []⟩),
+    .step false [] false false none (some ⟨"p", []⟩)]).toOption.isNone := by decide
+example : (specRun {} [.send 1 [1, 2] (some ⟨"p", []⟩),
+    .step false [.sent 2 2] false false none (some ⟨"v", []⟩)]).toOption.isNone := by decide
 
 end SockModel.AsyncQ
